@@ -155,6 +155,10 @@ var c17Fixed = []c17Params{
 	{N: 40, refsPer: 1, withLogs: true, rewrite: true, kind: 0, nameLen: 20},                   // small-N excess, rewritten names
 	{N: 300, refsPer: 1, withLogs: true, rewrite: true, constant: true, kind: 0, nameLen: 20}, // quadratic re-merging
 	{N: 300, refsPer: 5, withLogs: true, rewrite: true, constant: true, kind: 2, nameLen: 30},
+	// identical-size transactions that are all deletions: every compaction that starts at
+	// the oldest table cancels out completely (its result is empty)
+	{N: 200, refsPer: 1, kind: 3, nameLen: 24},
+	{N: 200, refsPer: 3, kind: 3, nameLen: 30, gcfg: gen.Cfg{SHA256: true, BlockSize: 512}},
 }
 
 func runC17Workload(c *Ctx, w int) {
@@ -222,6 +226,8 @@ func runC17WorkloadP(c *Ctx, w int, p c17Params) {
 			switch kind {
 			case 0:
 				ref.Kind, ref.Value = gen.KVal, gen.IDHash(cn, j, hs)
+			case 3:
+				ref.Kind = gen.KDel
 			case 1:
 				ref.Kind, ref.Target = gen.KSym, "refs/heads/some-target-of-fixed-length"
 			default:
